@@ -185,6 +185,49 @@ PROBE_DECLS = {"std::iter::Iterator::map": "map", "std::iter::Iterator::filter":
                "std::iter::Iterator::find": "find", "std::iter::Iterator::position": "position", "std::iter::Iterator::inspect": "inspect",
                "std::iter::Iterator::take_while": "take_while", "std::iter::Iterator::skip_while": "skip_while", "std::iter::Iterator::map_while": "map_while"}
 _SYNTH = {}
+# combinators that apply a closure to the payload: Option::map / and_then, Result::map / and_then (the `match` they abbreviate)
+PAYLOAD_DECLS = {"std::option::Option::map": ("option", "map"), "std::option::Option::and_then": ("option", "and_then"),
+                 "std::result::Result::map": ("result", "map"), "std::result::Result::and_then": ("result", "and_then")}
+
+
+def synth_payload_body(cr, container, kind, ckey, recv_ty):
+    """locals: 0 ret | 1 receiver | 2 closure | 3 discr | 4 payload | 5 closure result | 6 residual"""
+    ck = ("payload", container, kind, ckey, recv_ty, id(cr))
+    if ck in _SYNTH:
+        return _SYNTH[ck]
+    clo = cr.fns[ckey]
+    other = _other_type(cr)
+    locals_ = [other] * 7
+    locals_[1] = recv_ty if recv_ty is not None else other
+    locals_[4] = clo["locals"][2] if len(clo["locals"]) > 2 else other
+    locals_[5] = clo["locals"][0]
+    meta = {"f": "<model of %s::%s>" % (container, kind), "ln": 0}
+    adt = OPTION if container == "option" else RESULT
+    some_vi, none_vi = (1, 0) if container == "option" else (0, 1)
+
+    def stmt(p_, rv):
+        d = {"p": p_, "rv": rv}
+        d.update(meta)
+        return d
+    b0 = {"s": [stmt(3, {"r": "discr", "p": 1})], "term": dict({"t": "switch", "d": {"m": 3}, "cases": [[some_vi, 1], [none_vi, 3]], "else": 4, "dty": other}, **meta)}
+    call = {"t": "call", "fn": {"decl": "std::ops::FnOnce::call_once", "dkey": "std::ops::FnOnce::call_once", "path": "std::ops::FnOnce::call_once", "key": "std::ops::FnOnce::call_once",
+                                "via": "trait", "local": 0, "ga": []}, "args": [{"m": 2}, {"m": 4}], "dest": 5, "to": 2}
+    call.update(meta)
+    b1 = {"s": [stmt(4, {"r": "use", "o": {"m": [1, [["dc", some_vi, "Some" if container == "option" else "Ok"], ["f", 0, "0"]]]}})], "term": call}
+    if kind == "map":
+        b2 = {"s": [stmt(0, {"r": "agg", "ak": "adt", "adt": adt, "vi": some_vi, "vn": "Some", "ops": [{"m": 5}]})], "term": dict({"t": "return"}, **meta)}
+    else:
+        b2 = {"s": [stmt(0, {"r": "use", "o": {"m": 5}})], "term": dict({"t": "return"}, **meta)}
+    if container == "option":
+        b3 = {"s": [stmt(0, {"r": "agg", "ak": "adt", "adt": adt, "vi": 0, "vn": "None", "ops": []})], "term": dict({"t": "return"}, **meta)}
+    else:
+        b3 = {"s": [stmt(6, {"r": "use", "o": {"m": [1, [["dc", 1, "Err"], ["f", 0, "0"]]]}}), stmt(0, {"r": "agg", "ak": "adt", "adt": adt, "vi": 1, "vn": "Err", "ops": [{"m": 6}]})],
+              "term": dict({"t": "return"}, **meta)}
+    b4 = {"s": [], "term": dict({"t": "unreachable"}, **meta)}
+    body = {"key": "model::%s_%s<%s>" % (container, kind, ckey), "path": "model::%s_%s" % (container, kind), "kind": "fn", "file": "<model>", "line": 0, "hi": 0, "vis": "",
+            "argc": 2, "locals": locals_, "names": [["payload", 4]], "blocks": [b0, b1, b2, b3, b4], "promoted": [], "closure": ckey}
+    _SYNTH[ck] = body
+    return body
 
 
 def synth_probe_body(cr, kind, ckey):
@@ -943,12 +986,29 @@ class AI:
         return ty
 
     def fold_model(self, st, frame, term, callee, args, to):
+        pay = PAYLOAD_DECLS.get(M.norm_path(callee.get("path", "")))
+        if pay is not None and to is not None and len(args) == 2 and len(st.frames) < self.max_depth:
+            fv = self.resolve(st, args[1])
+            if fv[0] == "closure" and fv[1] in self.cr.fns and self.cr.fns[fv[1]]["argc"] == 2 and (
+                    INLINE_PRIVATE_HELPERS or self.hooks.inline(self, st, fv[1], self.cr.fns[fv[1]])):
+                pl = M.op_place(term["args"][0])
+                recv_ty = frame.body["locals"][pl] if isinstance(pl, int) and pl < len(frame.body["locals"]) else None
+                body = synth_payload_body(self.cr, pay[0], pay[1], fv[1], recv_ty)
+                nf = Frame(body["key"], body, "%s%s:%d>" % (frame.prefix, short(frame.fkey), frame.bb), len(st.frames))
+                nf.locals[1] = args[0]
+                nf.locals[2] = args[1]
+                nf.ret_place = term["dest"]
+                nf.ret_to = to
+                st.frames.append(nf)
+                return [st]
+            return None
         pk = PROBE_DECLS.get(M.norm_path(callee.get("decl", "")))
         if pk is not None and to is not None and len(args) == 2 and len(st.frames) < self.max_depth:
             fv = self.resolve(st, args[1])
             if fv[0] == "ref":
                 fv = self.resolve(st, self.read_at(st, fv[1], fv[2]))
-            if fv[0] == "closure" and fv[1] in self.cr.fns and self.cr.fns[fv[1]]["argc"] == 2 and self.hooks.inline(self, st, fv[1], self.cr.fns[fv[1]]):
+            if fv[0] == "closure" and fv[1] in self.cr.fns and self.cr.fns[fv[1]]["argc"] == 2 and (
+                    INLINE_PRIVATE_HELPERS or self.hooks.inline(self, st, fv[1], self.cr.fns[fv[1]])):
                 body = synth_probe_body(self.cr, pk, fv[1])
                 nf = Frame(body["key"], body, "%s%s:%d>" % (frame.prefix, short(frame.fkey), frame.bb), len(st.frames))
                 nf.locals[1] = args[0]
@@ -964,7 +1024,7 @@ class AI:
         fv = self.resolve(st, args[-1])
         if fv[0] == "ref":
             fv = self.resolve(st, self.read_at(st, fv[1], fv[2]))
-        if fv[0] != "closure" or fv[1] not in self.cr.fns or not self.hooks.inline(self, st, fv[1], self.cr.fns[fv[1]]):
+        if fv[0] != "closure" or fv[1] not in self.cr.fns or not (INLINE_PRIVATE_HELPERS or self.hooks.inline(self, st, fv[1], self.cr.fns[fv[1]])):
             return None
         want = 3 if kind in ("try_fold", "fold") else 2
         if len(args) != want:
@@ -1331,7 +1391,8 @@ class AI:
         # 3. inline
         if target_key is not None and call_args is not None and target_key in self.cr.fns and len(st.frames) < self.max_depth:
             fn = self.cr.fns[target_key]
-            if self.hooks.inline(self, st, target_key, fn) or (INLINE_PRIVATE_HELPERS and is_private_fn(fn) and target_key != st.frames[0].fkey
+            if self.hooks.inline(self, st, target_key, fn) or (frame.body.get("file") == "<model>" and frame.body.get("closure") == target_key) or (
+                    INLINE_PRIVATE_HELPERS and is_private_fn(fn) and target_key != st.frames[0].fkey
                                                               and fn.get("file") == st.frames[0].body.get("file") and target_key not in [fr.fkey for fr in st.frames]):
                 if to is None:
                     return []
